@@ -60,12 +60,16 @@ Definition prepare_line (sep : separator) (u : unit_level) (line : str) : result
       Ok (norm_ws l3)
     | USyll =>
       match s_syll sep with
-      | None => Raise TypeError                            (* replace(None, ' ') *)
-      | Some sy =>
+      | None =>
+        (* str.split(None): the chunks between white space (before fix 7cc02d3: TypeError from replace(None, ' ')) *)
         let l1 := replace_all w [] line in
-        let l2 := replace_all [sp] [] l1 in
-        let l3 := replace_all (osep (s_phone sep)) [] l2 in
-        Ok (norm_ws (replace_all sy [sp] l3))
+        Ok (norm_ws (join [sp] (map (fun x => replace_all [sp] [] (replace_all (osep (s_phone sep)) [] x)) (split_ws l1))))
+      | Some sy =>
+        (* since fix 7cc02d3: cut on the syllable separator first, then delete the phone separators and the
+           spaces inside each syllable, and join by single spaces (before: every space was deleted first) *)
+        let l1 := replace_all w [] line in
+        let syls := split_on sy l1 in
+        Ok (norm_ws (join [sp] (map (fun x => replace_all [sp] [] (replace_all (osep (s_phone sep)) [] x)) syls)))
       end
     end
   end.
